@@ -217,6 +217,13 @@ def build(shape, coords, seed=None):
     d.add_component_link(ComponentLink([d.id['x'], d.id['i']], fn2, using=_f2))
     d.add_component_link(ComponentLink([fn], fnn, using=_f3))
     d.add_component_link(ComponentLink([pix[0], wld[-1]], fnpw, using=_f2))
+    # arithmetic attributes written as text (what the "arithmetic attribute" editor creates); the second one refers
+    # to the first BEFORE another attribute, the third after it
+    from glue.core.parse import ParsedCommand, ParsedComponentLink
+    par, parn, parn2 = ComponentID('par'), ComponentID('parn'), ComponentID('parn2')
+    d.add_component_link(ParsedComponentLink(par, ParsedCommand('{x} * 2 + {i}', {'x': d.id['x'], 'i': d.id['i']})))
+    d.add_component_link(ParsedComponentLink(parn, ParsedCommand('{p} + {i}', {'p': par, 'i': d.id['i']})))
+    d.add_component_link(ParsedComponentLink(parn2, ParsedCommand('{w} - {p}', {'p': par, 'w': wld[-1]})))
 
     d2 = Data(y=np.where(np.isfinite(x), x * 8, x), z=np.zeros(shape), label='e')
     d3 = Data(q=np.zeros(shape), label='u')
@@ -240,6 +247,9 @@ def build(shape, coords, seed=None):
     A['fn2'] = (d, fn2, 'derived-fn', ['x', 'i'])
     A['fnpw'] = (d, fnpw, 'derived-fn', ['pix0', last])
     A['fnn'] = (d, fnn, 'derived-fn-nested', ['fn'])
+    A['par'] = (d, par, 'derived-parsed', ['x', 'i'])
+    A['parn'] = (d, parn, 'derived-parsed-nested', ['par', 'i'])
+    A['parn2'] = (d, parn2, 'derived-parsed-nested', ['par', last])
     A['lnk'] = (d, d2.id['y'], 'linked', [])
     A['lnkz'] = (d, d2.id['z'], 'linked', [])
     A['lnkrev'] = (d2, d.id['x'], 'linked', [])
